@@ -2,6 +2,7 @@ package main
 
 import (
 	"os"
+	"syscall"
 
 	"github.com/deckhouse/deckhouse/pkg/log"
 
@@ -19,3 +20,12 @@ var sched = func() *verifsched.Controller {
 	verifsched.Install(c)
 	return c
 }()
+
+// writeScript writes an executable file that is going to be exec'ed. No goroutine of this process
+// may fork while the file is open for writing: the child would inherit the descriptor until its own
+// exec and running the script would fail with ETXTBSY ("text file busy").
+func writeScript(path string, content []byte, mode os.FileMode) error {
+	syscall.ForkLock.RLock()
+	defer syscall.ForkLock.RUnlock()
+	return os.WriteFile(path, content, mode)
+}
